@@ -226,6 +226,32 @@ class C15(Prop):
                 if i is not None:
                     v.bad('variant-differs-online:' + label, 'variant [%s] %r gives %r at update %d, canonical %r '
                           'gives %r' % (label, vt, on[i], i, text, base_on[i]))
+        if case.get('vseed', 0) % 8 == 0 and names and not v.viol:
+            # the spellings of the assertion head on an object that has grown: it parsed and evaluated an earlier
+            # head-less text, then got a sub-specification (which the formula does not use) and the text - without a
+            # head, with the head `out =`, with another head, in alias spelling.  An omitted head never changes the result
+            heads = [('grown:no-head', text), ('grown:head-out', 'out = ' + text), ('grown:head-res', 'res = ' + text),
+                     ('grown:no-head-alias', self.variants(f, case.get('vseed', 0))[0][1])]
+            outs = []
+            for label, vt in heads:
+                try:
+                    sp = drive.build_spec('dt', {'text': '(%s >= 1)' % names[0], 'vars': names + ['out', 'res']})
+                    sp.parse()
+                    sp.evaluate(drive.dt_dataset(data, n))
+                    sp.add_sub_spec('q9 = (%s <= 4);' % names[0])
+                    sp.spec = vt
+                    sp.parse()
+                    outs.append((label, vt, drive.values(sp.evaluate(drive.dt_dataset(data, n)))))
+                except Exception as e:
+                    v.info['grown-object-raised:' + type(e).__name__] = 1
+            v.info['variant:grown-object'] = 1
+            for label, vt, got in outs:
+                i = next((i for i in range(n) if exp[i] == exp[i] and not refd.same(got[i], base[i], rel)), None)
+                if i is not None:
+                    v.bad('variant-differs:' + label, 'on an object that parsed %r, evaluated, got the sub-specification '
+                          '%r and then the text %r: value %r at sample %d, a fresh object on %r gives %r; data=%s' % (
+                              '(%s >= 1)' % names[0], 'q9 = (%s <= 4);' % names[0], vt, got[i], i, text, base[i], data))
+                    break
         for label, sugar, expansion, cfg in self.unit_pairs(f, case.get('vseed', 0)):
             key = 'variant:' + label.split(':')[0]
             v.info[key] = v.info.get(key, 0) + 1
